@@ -547,7 +547,7 @@ func checkGate(c *engine.Ctx, g *gateInfo, listOp map[*types.Var]string, rejectF
 			if success {
 				// the loop must have been left through its own condition
 				seen := false
-				for _, bi := range st.Blocks[1:] {
+				for _, bi := range st.Blocks[st.ArmedAt+1:] {
 					if bi == header.Index {
 						seen = true
 					}
